@@ -26,7 +26,8 @@ CONSTANTS PatSet,       \* set of pattern names to explore
           PskMode,      \* "none" | "single" | "all" | "only" (only choices WITH a psk)
           PubLens,      \* subset of {32, 65}
           InitPads,     \* subset of BOOLEAN
-          Profiles,     \* subset of {"zero","small","tag","max"}
+          Profiles,     \* subset of {"zero","small","tag","mid","max"}
+          BufModes,     \* subset of {"big","exact"}: caller buffers far larger than needed / exactly as large as needed
           Variants,     \* subset of {"tr","sl"}
           FixedEs,      \* subset of BOOLEAN
           TrafficMode,  \* "mixed" | "alternate" | "short"
@@ -81,9 +82,9 @@ BIGBUF == 70000
 Lates(p, ps) == IF LatePsk THEN {<<"-", 0>>} \cup { <<id, n>> : id \in {"I", "R"}, n \in ps } ELSE {<<"-", 0>>}
 
 Init ==
-  /\ \E p \in PatSet, pl \in PubLens, ip \in InitPads, prof \in Profiles, v \in Variants, fx \in FixedEs :
+  /\ \E p \in PatSet, pl \in PubLens, ip \in InitPads, prof \in Profiles, v \in Variants, fx \in FixedEs, bm \in BufModes :
        \E ps \in PskSets(p) : \E late \in Lates(p, ps) :
-         prm = [pp |-> PP(p, ps, pl, ip), prof |-> prof, variant |-> v, fixed |-> fx, late |-> late]
+         prm = [pp |-> PP(p, ps, pl, ip), prof |-> prof, variant |-> v, fixed |-> fx, late |-> late, bufs |-> bm]
   /\ ep = [id \in {"I", "R"} |-> Absent]
   /\ hist = <<>>
   /\ aeadLog = {}
@@ -104,12 +105,14 @@ PayLen(k, st) ==
   CASE prm.prof = "zero"  -> 0
     [] prm.prof = "small" -> 2 * k + 1
     [] prm.prof = "tag"   -> (CASE k = 1 -> 16 [] k = 2 -> 17 [] k = 3 -> 15 [] k = 4 -> 1)
+    [] prm.prof = "mid"   -> 90 + k
     [] prm.prof = "max"   -> MAXMSG - Overhead(st)
 
 TPayLen(j) ==
   CASE prm.prof = "zero"  -> 0
     [] prm.prof = "small" -> j
     [] prm.prof = "tag"   -> 15 + j
+    [] prm.prof = "mid"   -> 100 + j
     [] prm.prof = "max"   -> IF j = 1 THEN MAXMSG - TAGLEN ELSE j
 
 (* program: pc 0,1 builds; 2..2N+1 handshake; 2N+2,2N+3 raw split; 2N+4,2N+5 conversions; traffic *)
@@ -134,6 +137,17 @@ JustFailedNoPsk(id) ==
      /\ l.ep = id /\ l.exp.res = "err" /\ "cause" \in DOMAIN l.exp
      /\ l.exp.cause \in {"W_NO_PSK", "R_NO_PSK"}
 
+(* caller buffers of the genuine calls: far larger than needed, or exactly as large as needed
+   (a write before any key is set needs TAGLEN spare bytes: the named SlackInput deviation) *)
+WBuf(st, payload) ==
+  IF prm.bufs = "big" THEN BIGBUF
+  ELSE LET w == WriteMessage(st, payload, BIGBUF) IN IF w.enc THEN w.len ELSE w.len + TAGLEN
+RBuf(st, msg) ==
+  IF prm.bufs = "big" THEN BIGBUF ELSE ReadMessage(st, msg, BIGBUF).plen
+TWBuf(payload) == IF prm.bufs = "big" THEN BIGBUF ELSE TLen(payload, PL) + TAGLEN
+TRBuf(msg) == IF prm.bufs = "big" THEN BIGBUF
+              ELSE LET l == SumLen(msg, PL) IN IF l >= TAGLEN THEN l - TAGLEN ELSE 0
+
 (* ---- the genuine step of the script ------------------------------------ *)
 (* A genuine step that fails (possible only with a missing PSK, after a    *)
 (* tampering, or with FullRollback = FALSE) does not advance the script.   *)
@@ -150,7 +164,7 @@ Genuine ==
             LET k == HsMsg IN
             IF IsWritePc
             THEN /\ ~JustFailedNoPsk(Writer(k))
-                 /\ HsWrite(Writer(k), GenuinePayload(k), BIGBUF, FALSE)
+                 /\ HsWrite(Writer(k), GenuinePayload(k), WBuf(St(Writer(k)), GenuinePayload(k)), FALSE)
                  /\ IF LastRes = "ok"
                     THEN /\ pc' = pc + 1
                          /\ wire' = hist'[Len(hist')].exp.out
@@ -159,7 +173,7 @@ Genuine ==
                     ELSE /\ UNCHANGED <<pc, wire, sent>>
                          /\ status' = IF hist'[Len(hist')].exp.cause = "W_NO_PSK" THEN status ELSE "stuck"
             ELSE /\ ~JustFailedNoPsk(Reader(k))
-                 /\ HsRead(Reader(k), wire, BIGBUF)
+                 /\ HsRead(Reader(k), wire, RBuf(St(Reader(k)), wire))
                  /\ UNCHANGED <<wire, sent>>
                  /\ IF LastRes = "ok"
                     THEN pc' = pc + 1 /\ UNCHANGED status
@@ -175,14 +189,14 @@ Genuine ==
             /\ UNCHANGED sent
             /\ IF (pc - TBase) % 2 = 0
                THEN /\ IF prm.variant = "tr"
-                       THEN TrWrite(snd, Lit(PayId(4 + j), TPayLen(j)), BIGBUF)
-                       ELSE SlWrite(snd, NLo(SentBefore(j)), Lit(PayId(4 + j), TPayLen(j)), BIGBUF)
+                       THEN TrWrite(snd, Lit(PayId(4 + j), TPayLen(j)), TWBuf(Lit(PayId(4 + j), TPayLen(j))))
+                       ELSE SlWrite(snd, NLo(SentBefore(j)), Lit(PayId(4 + j), TPayLen(j)), TWBuf(Lit(PayId(4 + j), TPayLen(j))))
                     /\ IF LastRes = "ok"
                        THEN pc' = pc + 1 /\ wire' = hist'[Len(hist')].exp.out /\ UNCHANGED status
                        ELSE UNCHANGED <<pc, wire>> /\ status' = "stuck"
                ELSE /\ IF prm.variant = "tr"
-                       THEN TrRead(Other(snd), wire, BIGBUF)
-                       ELSE SlRead(Other(snd), NLo(SentBefore(j)), wire, BIGBUF)
+                       THEN TrRead(Other(snd), wire, TRBuf(wire))
+                       ELSE SlRead(Other(snd), NLo(SentBefore(j)), wire, TRBuf(wire))
                     /\ UNCHANGED wire
                     /\ IF LastRes = "ok"
                        THEN pc' = pc + 1 /\ UNCHANGED status
